@@ -41,6 +41,8 @@ def mk_adapter(a):
         from dateutil.relativedelta import relativedelta
         return fm.adapters.DelayFixed(relativedelta(months=a[1]))
     if k == "topull":
+        if a[2] == 0:
+            return fm.adapters.DelayToPull(steps=a[1])      # the constructor's own default for the additional delay
         return fm.adapters.DelayToPull(steps=a[1], additional_delay=D(a[2]))
     if k == "topush":
         return fm.adapters.DelayToPush()
@@ -59,7 +61,9 @@ class TComp(fm.TimeComponent):
         self.idx = idx
         self.spec = spec
         self.events = events
-        self._time = T(spec["start"])
+        # "lazytime": the component learns its starting time only in the connect phase (as finam's CsvReader does when
+        # it reads its first row); until then TimeComponent.time is None and its outputs have no info
+        self._time = None if spec.get("lazytime") else T(spec["start"])
         self.cnt = 0
         self.calls = []
         self.received = []  # (input index, request us, delivered value)
@@ -79,14 +83,27 @@ class TComp(fm.TimeComponent):
     def _initialize(self):
         self.calls.append("I")
         for i, ispec in enumerate(self.spec["inputs"]):
+            if ispec.get("cbin"):
+                # a push-based slot (sdk CallbackInput: notified of every publication) that the component ALSO samples
+                # at its step times, as finam's DebugPushConsumer / ScheduleLogger pull theirs; for the driver it is an
+                # input like any other
+                self.inputs.add(io=fm.CallbackInput(callback=self._notified, name=f"i{i}", time=self.time,
+                                                    grid=fm.NoGrid(), units=None, **ispec.get("meta", {})))
+                continue
             self.inputs.add(name=f"i{i}", time=self.time, grid=fm.NoGrid(), units=None, **ispec.get("meta", {}))
         for o in range(self.spec["nout"]):
+            if self.spec.get("lazytime"):
+                self.outputs.add(name=f"o{o}")
+                continue
             self.outputs.add(name=f"o{o}", time=self.time, grid=fm.NoGrid(), units="")
         for o in range(self.spec["nout"], self.spec["nout"] + self.spec.get("nstatic", 0)):
             # static outputs: published once at connect, indices nout .. nout+nstatic-1
             self.outputs.add(name=f"o{o}", static=True, time=None, grid=fm.NoGrid(), units="")
         pull = [f"i{i}" for i, _ in enumerate(self.spec["inputs"])] if self.spec.get("initpull") else []
         self.create_connector(pull_data=pull)
+
+    def _notified(self, caller, time):
+        self.notified = getattr(self, "notified", 0) + 1
 
     def value(self):
         # payload identifies (component, update count)
@@ -95,12 +112,17 @@ class TComp(fm.TimeComponent):
     def _connect(self, start_time):
         self.calls.append("C")
         nall = self.spec["nout"] + self.spec.get("nstatic", 0)
+        infos = {}
+        if self.spec.get("lazytime"):
+            if self._time is None:
+                self._time = T(self.spec["start"])
+            infos = {f"o{o}": fm.Info(time=self.time, grid=fm.NoGrid(), units="") for o in range(self.spec["nout"])}
         push = {f"o{o}": self.value() + 0.0 * o for o in range(nall)}
         if self.spec.get("pap") and self.spec.get("initpull"):
             # "publish after pull": the initial data is provided only once every initial pull succeeded
             if not all(v is not None for v in self.connector.in_data.values()):
                 push = {}
-        self.try_connect(start_time, push_data=push)
+        self.try_connect(start_time, push_infos=infos, push_data=push)
 
     def _validate(self):
         self.calls.append("V")
@@ -170,6 +192,63 @@ class PComp(fm.Component):
         return s
 
 
+class RComp(fm.Component):
+    """A PUSH-based component without time step (kind "R"): notified through CallbackInputs, it samples the input that
+    published and re-publishes the sum of its latest values on its ordinary (buffered) outputs with the time of the
+    notification.  finam ships such components only as sinks (DebugPushConsumer, ScheduleLogger); with outputs they
+    are legal (schedule._check_dead_links) and the driver walks through them like through pull-based ones."""
+
+    def __init__(self, idx, spec, events, t0):
+        super().__init__()
+        self._name = f"C{idx}"
+        self.idx = idx
+        self.spec = spec
+        self.events = events
+        self.t0 = t0
+        self.calls = []
+        self.latest = {}
+        self.published = None
+
+    def _initialize(self):
+        self.calls.append("I")
+        for i, _ in enumerate(self.spec["inputs"]):
+            self.inputs.add(io=fm.CallbackInput(callback=(lambda caller, time, i=i: self._changed(i, caller, time)),
+                                                name=f"i{i}", time=T(self.t0), grid=fm.NoGrid(), units=None))
+        for o in range(self.spec["nout"]):
+            self.outputs.add(name=f"o{o}", time=T(self.t0), grid=fm.NoGrid(), units="")
+        self.create_connector(pull_data=[f"i{i}" for i, _ in enumerate(self.spec["inputs"])])
+
+    def _connect(self, start_time):
+        self.calls.append("C")
+        push = {}
+        if self.connector.all_data_pulled and self.published is None:
+            for i, _ in enumerate(self.spec["inputs"]):
+                self.latest[i] = fin.scalar_of(self.connector.in_data[f"i{i}"])
+            push = {f"o{o}": sum(self.latest.values()) for o in range(self.spec["nout"])}
+            self.published = T(self.t0)
+        self.try_connect(start_time, push_data=push)
+
+    def _validate(self):
+        self.calls.append("V")
+
+    def _update(self):
+        self.calls.append("U")
+
+    def _finalize(self):
+        self.calls.append("F")
+
+    def _changed(self, i, caller, time):
+        if self.status != fm.ComponentStatus.VALIDATED:
+            return  # connect phase: the initial data is pulled by the connector
+        self.events.append(["P", self.idx, i, us_of(time)])
+        self.latest[i] = fin.scalar_of(caller.pull_data(time))
+        if time > self.published:
+            self.published = time
+            self.events.append(["R", self.idx, us_of(time)])
+            for o in range(self.spec["nout"]):
+                self.outputs[f"o{o}"].push_data(sum(self.latest.values()), time)
+
+
 class FinLog:
     """records adapter finalisation"""
 
@@ -181,9 +260,11 @@ def build(case):
     t0 = min(starts) if starts else 0
     comps = []
     for idx, spec in enumerate(comps_spec):
-        comps.append((TComp if spec["kind"] == "T" else PComp)(idx, spec, events, t0))
+        comps.append({"T": TComp, "P": PComp, "R": RComp}[spec["kind"]](idx, spec, events, t0))
     for c in comps:
         c.peers = comps
+        if case.get("samename"):
+            c._name = "Node"     # components that were not given individual names share one (finam: the class name)
     composition = fm.Composition(comps, print_log=False)
     adapters = []
     fin_count = {}
@@ -218,7 +299,7 @@ def build(case):
                     _wrap_buffer(ad, events, idx, i, k, inp["chain"])
                 _wrap_finalize(ad, fin_count, (idx, i, k))
     for idx, spec in enumerate(comps_spec):
-        if spec["kind"] == "T":
+        if spec["kind"] in ("T", "R"):
             for o in range(spec["nout"] + spec.get("nstatic", 0)):
                 _wrap_output(comps[idx].outputs[f"o{o}"], events, idx, o)
     return composition, comps, events, adapters, fin_count, t0, n_shared[0]
@@ -278,7 +359,7 @@ def run_case(case, connect_only=False):
         if phase == "connect" and outcome == "CircularCoupling":
             import re as _re
             m = _re.search(r"Unconnected components: \[(.*?)\]", str(e))
-            stuck = [int(x.strip()[1:]) for x in m.group(1).split(",") if x.strip()] if m else None
+            stuck = [int(x.strip()[1:]) for x in m.group(1).split(",") if x.strip()] if m and not case.get("samename") else None
     def _meta(info):
         try:
             return sorted((k, str(v)) for k, v in info.meta.items())
